@@ -287,6 +287,8 @@ fn run_ins(rt: &tokio::runtime::Runtime, l: &[Sexp], workdir: &str, k: usize) ->
     let (src_decls, decls, cols, rows): (Option<&[Sexp]>, &[Sexp], Option<&[Sexp]>, &[Sexp]) = match kind.as_str() {
         "inscols" => (None, &l[2].as_list().unwrap()[1..], Some(&l[3].as_list().unwrap()[1..]), &l[4].as_list().unwrap()[1..]),
         "inssel" => (Some(&l[2].as_list().unwrap()[1..]), &l[3].as_list().unwrap()[1..], None, &l[4].as_list().unwrap()[1..]),
+        // selcast: src <TY> rows — `decls` is unused (the query is a SELECT CAST over `s`)
+        "selcast" => (Some(&l[2].as_list().unwrap()[1..]), &l[2].as_list().unwrap()[1..], None, &l[4].as_list().unwrap()[1..]),
         _ => (None, &l[2].as_list().unwrap()[1..], None, &l[3].as_list().unwrap()[1..]),
     };
     let coldefs = |ds: &[Sexp]| -> String {
@@ -322,10 +324,19 @@ fn run_ins(rt: &tokio::runtime::Runtime, l: &[Sexp], workdir: &str, k: usize) ->
                     failed += 1;
                 }
             }
-            if src_decls.is_some() && db.run("insert into t select * from s").await.is_err() {
+            if kind != "selcast" && src_decls.is_some() && db.run("insert into t select * from s").await.is_err() {
                 failed += 1000;
             }
-            let out = db.run("select * from t").await.map_err(|e| format!("select: {e}"))?;
+            let query = if kind == "selcast" {
+                format!("select cast(c0 as {}) from s", sql_ty(l[3].as_atom().unwrap()))
+            } else {
+                "select * from t".to_string()
+            };
+            let out = match db.run(&query).await {
+                Ok(o) => o,
+                Err(_) if kind == "selcast" => return Ok("ok ERR ;; variants=() failed=0".to_string()),
+                Err(e) => return Err(format!("select: {e}")),
+            };
             let mut rows_out: Vec<String> = vec![];
             let mut variants: Vec<&'static str> = vec![];
             for chunk in out.last().map(|c| c.data_chunks().to_vec()).unwrap_or_default() {
@@ -464,6 +475,50 @@ fn gen_p(r: &mut Rng, depth: u32) -> String {
     }
 }
 
+/// A number at or next to the range limits of integer column type `t`, on BOTH sides, or far
+/// outside, or small (the INSERT conversion must be lossless or fail for each of them).
+fn boundary_num(r: &mut Rng, t: &str) -> i64 {
+    let (lo, hi): (i64, i64) = match t {
+        "SMALLINT" => (i16::MIN as i64, i16::MAX as i64),
+        "INT" => (i32::MIN as i64, i32::MAX as i64),
+        _ => (i64::MIN + 2, i64::MAX - 1),
+    };
+    match r.below(14) {
+        0 => lo - 1,
+        1 => lo,
+        2 => lo + 1,
+        3 => hi - 1,
+        4 => hi,
+        5 => hi + 1,
+        6 => (lo / 2).saturating_mul(3).saturating_sub(7).max(i64::MIN + 2), // far below
+        7 => (hi / 2).saturating_mul(3).saturating_add(7).min(i64::MAX - 1), // far above
+        8 => -1,
+        9 => 0,
+        _ => *r.pick(&[1i64, 2, 5, 7, 100, -5, -100]),
+    }
+}
+
+fn int_tag(x: i64) -> String {
+    if x >= i32::MIN as i64 && x <= i32::MAX as i64 { format!("i32:{x}") } else { format!("i64:{x}") }
+}
+
+/// A value offered to an integer column of type `t`: integer literal, decimal literal or string,
+/// boundary-heavy on both sides of `t`'s (and of the narrower types') range.
+fn narrowing_val(r: &mut Rng, t: &str) -> String {
+    // the limits of `t` itself or of a narrower type (still interesting for a wider column)
+    let around = match t { "SMALLINT" => "SMALLINT", "INT" => *r.pick(&["INT", "INT", "SMALLINT"]), _ => *r.pick(&["BIGINT", "INT", "INT", "SMALLINT"]) };
+    let x = boundary_num(r, around);
+    match r.below(8) {
+        0 | 1 => format!("s:{}", hex(x.to_string().as_bytes())),
+        2 => {
+            // decimal literal with one fractional digit; keep |x| small enough for tenths in i64
+            let x = x.clamp(-900_000_000_000_000_000, 900_000_000_000_000_000);
+            format!("d:{}", x * 10 + if r.chance(1, 3) { *r.pick(&[5i64, 9]) * x.signum().max(0) } else { 0 })
+        }
+        _ => int_tag(x),
+    }
+}
+
 fn gen_ins(r: &mut Rng) -> String {
     let ncols = 1 + r.below(4) as usize;
     let tys: Vec<&str> = (0..ncols).map(|_| *r.pick(&["INT", "INT", "SMALLINT", "BIGINT", "BOOLEAN", "STRING", "STRING"])).collect();
@@ -489,6 +544,9 @@ fn gen_ins(r: &mut Rng) -> String {
                     let src = if r.chance(7, 10) { *t } else { *r.pick(&["INT", "BIGINT", "BOOLEAN", "STRING", "DEC", "NULL"]) };
                     if r.chance(1, 5) {
                         return "null".to_string();
+                    }
+                    if ["SMALLINT", "INT", "BIGINT"].contains(t) && r.chance(1, 2) {
+                        return narrowing_val(r, t);
                     }
                     match src {
                         "BOOLEAN" => format!("b:{}", r.chance(1, 2)),
@@ -521,9 +579,41 @@ fn ins_val(r: &mut Rng, t: &str) -> String {
     match t {
         "BOOLEAN" => format!("b:{}", r.chance(1, 2)),
         "STRING" => format!("s:{}", hex(r.pick(&["", "a", "12", "-5", "true", "xy", "70000"]).as_bytes())),
-        "BIGINT" => format!("i64:{}", r.pick(&[3000000000i64, 4294967296, 2147483648])),
-        _ => format!("i32:{}", r.pick(&[0i64, 1, 2, 5, 7, 100, 32767])),
+        // integer columns: in-range values of the column type, boundary-heavy on both sides of the
+        // narrower types' ranges (so that INSERT ... SELECT / CAST into a narrower column meets
+        // MIN-1, MIN, MAX, MAX+1 alone and mixed with in-range values in one chunk)
+        "BIGINT" => {
+            let around = *r.pick(&["INT", "INT", "SMALLINT", "BIGINT"]);
+            int_tag(boundary_num(r, around).clamp(i64::MIN + 2, i64::MAX - 1))
+        }
+        "INT" => {
+            let around = *r.pick(&["SMALLINT", "INT"]);
+            int_tag(boundary_num(r, around).clamp(i32::MIN as i64, i32::MAX as i64))
+        }
+        _ => int_tag(boundary_num(r, "SMALLINT").clamp(i16::MIN as i64, i16::MAX as i64)),
     }
+}
+
+/// rows into a one-column table `s`, then `SELECT CAST(c0 AS T) FROM s` (one chunk: boundary
+/// values alone or mixed with in-range ones)
+fn gen_selcast(r: &mut Rng) -> String {
+    let (src, dst) = *r.pick(&[("BIGINT", "INT"), ("BIGINT", "INT"), ("BIGINT", "SMALLINT"), ("INT", "SMALLINT"), ("STRING", "INT"), ("STRING", "SMALLINT"), ("STRING", "BIGINT"), ("INT", "BIGINT"), ("SMALLINT", "INT")]);
+    let n = 1 + r.below(4);
+    let rows: Vec<String> = (0..n)
+        .map(|_| {
+            if src == "STRING" {
+                format!("(s:{})", hex(boundary_num(r, dst).to_string().as_bytes()))
+            } else if r.chance(1, 2) {
+                // a value around the limits of the TARGET type, representable in the source type
+                let (lo, hi) = match src { "SMALLINT" => (i16::MIN as i64, i16::MAX as i64), "INT" => (i32::MIN as i64, i32::MAX as i64), _ => (i64::MIN + 2, i64::MAX - 1) };
+                format!("({})", int_tag(boundary_num(r, dst).clamp(lo, hi)))
+            } else {
+                format!("({})", ins_val(r, src))
+            }
+        })
+        .collect();
+    let rws = rows.join(" ");
+    format!("(selcast mem (src ({src} null)) {dst} (rows {rws}))\n(selcast disk (src ({src} null)) {dst} (rows {rws}))")
 }
 
 fn gen_decls(r: &mut Rng, n: usize) -> Vec<(String, String)> {
@@ -651,12 +741,13 @@ fn main() {
             let mut r = Rng::from_env();
             let mut out = String::new();
             for _ in 0..n {
-                let line = match r.below(20) {
+                let line = match r.below(22) {
                     0..=11 => { let d = 1 + r.below(4) as u32; format!("(type {})", gen_t(&mut r, d)) }
                     12..=14 => { let d = r.below(3) as u32; format!("(ptype {})", gen_p(&mut r, d)) }
                     15 | 16 => gen_ins(&mut r),
                     17 => gen_inscols(&mut r),
-                    _ => gen_inssel(&mut r),
+                    18 => gen_inssel(&mut r),
+                    _ => if r.chance(1, 2) { gen_inssel(&mut r) } else { gen_selcast(&mut r) },
                 };
                 out += &line;
                 out.push('\n');
@@ -687,7 +778,7 @@ fn main() {
                         let mut e = RecExpr::default();
                         match catch(|| { add_p(&l[1], &mut e); e }) { Ok(e) => static_type(&e), Err(p) => format!("harness-error {p}") }
                     }
-                    "ins" | "inscols" | "inssel" => {
+                    "ins" | "inscols" | "inssel" | "selcast" => {
                         let wd = args.get(3).cloned().or_else(|| std::env::var("C16_WORK").ok()).expect("workdir");
                         run_ins(&rt, l, &wd, k)
                     }
